@@ -1,8 +1,29 @@
-import ArrModel.C14
-namespace ArrModel.C14
-open ArrModel
+import ArrProofs.Lemmas.C14
+/-!
+# C14 — vector and matrix products equal their defining sums when operands conform
 
-theorem vdot_refused (a b : A) (h : a.len ≠ b.len) : vdot a b = .err .MustBeEqual := by
-  unfold vdot; rw [if_neg h]
+Property theorems only (helpers: `ArrProofs/Lemmas/C14.lean`).  Model under test: `ArrModel/C14.lean`
+(`matmul`, `dot`, `vdot`, `inner`, `outer` with their rank dispatch and helpers, as repaired by
+`/verif/fixes/C14-*.diff`).  Entries are integers; `a.ent c` reads the entry at coordinates `c`
+(`Arr.get?` with default `0`; `get?_eq_some_ent` shows the read is defined on every in-range coordinate).
+Sums are `Finset` sums over the shared index.
+-/
+namespace ArrModel.C14
+open ArrModel Finset
+
+/-- **matrix · matrix**: `[n,m] · [m,p]` is accepted, has shape `[n,p]`, is well-formed, and
+entry `(i,j)` is `Σ_k A[i,k]·B[k,j]`. No bound on `n, m, p` (zero lengths included). -/
+theorem matmul_22 (a b : A) (n m p : Nat) (ha : a.WF) (hb : b.WF)
+    (hsa : a.shape = [n, m]) (hsb : b.shape = [m, p]) :
+    ∃ r, matmul a b = .ok r ∧ r.shape = [n, p] ∧ r.WF ∧
+      ∀ i j, i < n → j < p → r.get? [i, j] = some (∑ k ∈ range m, a.ent [i, k] * b.ent [k, j]) := by
+  refine ⟨mm22 a b n m p, ?_, rfl, ?_, ?_⟩
+  · unfold matmul
+    simp only [Arr.ndim, hsa, hsb]
+    simp
+    exact matmul22_eq a b n m p ha hb hsa hsb
+  · simp [Arr.WF, mm22, length_flatMap_range]
+  · intro i j hi hj
+    rw [mm22_get a b n m p i j hi hj, cellSpec_eq_ent a b n m p i j hsa hsb]
 
 end ArrModel.C14
